@@ -4,6 +4,7 @@ import Hive.Proofs.KVTrace
 import Hive.Proofs.KVFault
 import Hive.Proofs.KVHeap
 import Hive.Proofs.KVMem
+import Hive.Proofs.KVMemSim
 import Hive.Model.KVDrive
 import Hive.Gen.C04_Calls
 import Hive.Gen.C04_Skel
@@ -794,6 +795,41 @@ with the buffers as they read at that moment of the history. -/
 theorem C04_mem_stored_data_evolves_by_value (ops : List MOp) :
     Mem.storeView (mrun minit ops) = effects minit ops [] :=
   storeView_run minit minv_init ops
+
+/-- **The memory model simulates the value model, one request.**  In related states (`Sim`: same stored data, same
+handles, a view's realm and a batch's pending operations are what the referenced buffers read now), for a request whose slice
+arguments are buffers the caller holds, and — if it is a caller write — does not hit a buffer that a view or a pending batch
+still references (`Pinned`: the realm slice kept by `WithRealm`, the value slices of a batch; the two references the code
+keeps): a caller action (`alloc`, `write`) leaves the value-model state where it is, and a store request is the value-model
+request `toOp` — the same request with its arguments as the buffers read at the call — with corresponding answers
+(`outRel`: the buffers handed out read exactly the value model's bytes, for `Get`, `Realm` and every key and value of both
+iterations).  So every statement proved about the value model (refinement of the ordered map, `C04_refines` …) holds for the
+store with memory, with "the caller's buffers at call time" as arguments. -/
+theorem C04_mem_step_refines_value_model (ms : MSt) (st : St) (hs : Sim ms st) (hi : MInv ms) (op : MOp)
+    (hk : argsKnown ms op) (hw : ∀ r b, op = .write r b → ¬ Pinned ms r) :
+    match toOp ms op with
+    | none => Sim (mstep ms op).1 st
+    | some o => Sim (mstep ms op).1 (step st o).1 ∧ outRel (mstep ms op).1 (mstep ms op).2 (step st o).2 :=
+  sim_step hs hi op hk hw
+
+/-- **… and every history** from a fresh store: if no caller write ever hits a pinned buffer (`Safe`), the memory model
+after the history is related to the value model after the history `toOps` (the store requests, arguments by value; the
+caller's actions gone) — whatever else the caller overwrites, reuses or allocates in between. -/
+theorem C04_mem_refines_value_model (ops : List MOp) (hsafe : Safe minit ops) :
+    Sim (mrun minit ops) (run init (toOps minit ops)).1 :=
+  sim_run sim_init minv_init ops hsafe
+
+/-- `Safe` is satisfiable by a history with writes that matter: the buffer passed to `WithExtendedRealm` (the view has a
+private copy) and the key / value buffer of a `Set` are overwritten afterwards, then read back. -/
+example : Safe minit [.alloc [1], .alloc [5], .withExtendedRealm 1 0 1, .set 1 2 2, .write 1 [9], .write 2 [8], .get 1 2] := by
+  simp [Safe, argsKnown, Pinned, mstep, minit, Mem.alloc, Mem.write, Mem.read, mapSet, rset, rget, fullKey, List.lookup]
+  repeat' apply And.intro
+  all_goals intros
+  all_goals (repeat' split at *)
+  all_goals simp_all
+
+/-- The relation holds initially. -/
+example : Sim minit init ∧ MInv minit := ⟨sim_init, minv_init⟩
 
 /-- The hypotheses are satisfiable, and the model has the aliasing the code has.  One key buffer reused for three batch
 calls (the usual loop) gives three operations on three keys; `WithRealm` keeps the caller's realm slice — overwriting it
